@@ -595,6 +595,12 @@ class StmtMixin:
         for a in sorted(assigned):
             if a in path.env and not isinstance(path.env[a], (MaybeUnbound,)) and path.env[a] is not UNBOUND:
                 cur = path.env[a]
+                if isinstance(cur, VList) and not cur.items and cur.elem_kind is None:
+                    hint = (ctx.cur_contract.kinds or {}).get(a)
+                    if hint is None:
+                        raise OutOfReach(f'loop variable {a}: element kind of the empty list unknown (give kinds= in the contract)')
+                    k = self.ann_kind(ast.parse(hint, mode='eval').body, None)
+                    cur = VSeq(z3.Empty(ctx.sorts.sort_of(k)), k[1])
                 if isinstance(cur, (VList, VHeapList)):
                     t, ek = self.to_seq(cur, path)
                     cur = VSeq(t, ek)
